@@ -187,4 +187,186 @@ theorem caseEq_iff (s t : Str) : caseEq s t = true ↔ s.map asciiLower = t.map 
     | nil => simp [caseEq]
     | cons b t => simp [caseEq, ih, caseEqC_iff]
 
+/-! ### C. the name code -/
+
+theorem char_toNat_lt (c : Char) : c.toNat < 1114112 := by
+  have h := c.valid
+  simp only [UInt32.isValidChar, Nat.isValidChar] at h
+  show c.val.toNat < 1114112
+  omega
+
+theorem B_pow_pos (n : Nat) : 0 < B ^ n := Nat.pow_pos (by decide)
+
+theorem digit_lt {a b x P : Nat} (y : Nat) (hab : a < b) (hx : x < P) : a * P + x < b * P + y := by
+  have h : (a + 1) * P ≤ b * P := Nat.mul_le_mul_right P hab
+  rw [Nat.succ_mul] at h
+  omega
+
+theorem digit_lt_iff {a b x y P : Nat} (hx : x < P) (hy : y < P) :
+    a * P + x < b * P + y ↔ a < b ∨ (a = b ∧ x < y) := by
+  rcases Nat.lt_trichotomy a b with h | h | h
+  · exact ⟨fun _ => Or.inl h, fun _ => digit_lt y h hx⟩
+  · subst h
+    constructor
+    · intro h'; exact Or.inr ⟨rfl, by omega⟩
+    · rintro (h' | ⟨_, h'⟩) <;> omega
+  · have := digit_lt x h hy
+    constructor
+    · intro h'; omega
+    · rintro (h' | ⟨h', _⟩) <;> omega
+
+theorem digit_eq {a b x y P : Nat} (hx : x < P) (hy : y < P) (h : a * P + x = b * P + y) :
+    a = b ∧ x = y := by
+  rcases Nat.lt_trichotomy a b with h' | h' | h'
+  · have := digit_lt y h' hx; omega
+  · subst h'; exact ⟨rfl, by omega⟩
+  · have := digit_lt x h' hy; omega
+
+theorem encN_lt (n : Nat) (s : Str) : encN n s < B ^ n := by
+  induction n generalizing s with
+  | zero => simp [encN]
+  | succ n ih =>
+    cases s with
+    | nil => simpa [encN] using B_pow_pos (n + 1)
+    | cons c s =>
+      simp only [encN]
+      have h1 := ih s
+      have h2 := char_toNat_lt c
+      have h3 : (c.toNat + 1) * B ^ n ≤ (B - 1) * B ^ n :=
+        Nat.mul_le_mul_right _ (by simp only [B]; omega)
+      have h4 : B ^ (n + 1) = (B - 1) * B ^ n + B ^ n := by
+        rw [Nat.pow_succ, Nat.mul_comm, ← Nat.succ_mul]; rfl
+      omega
+
+/-- the code is injective on names of at most `n` characters -/
+theorem encN_inj (n : Nat) (s t : Str) (hs : s.length ≤ n) (ht : t.length ≤ n)
+    (h : encN n s = encN n t) : s = t := by
+  induction n generalizing s t with
+  | zero =>
+    have : s = [] := List.eq_nil_of_length_eq_zero (by omega)
+    have : t = [] := List.eq_nil_of_length_eq_zero (by omega)
+    simp_all
+  | succ n ih =>
+    cases s with
+    | nil =>
+      cases t with
+      | nil => rfl
+      | cons d t =>
+        simp only [encN] at h
+        have := Nat.mul_le_mul_right (B ^ n) (show 1 ≤ d.toNat + 1 by omega)
+        have := B_pow_pos n
+        omega
+    | cons c s =>
+      cases t with
+      | nil =>
+        simp only [encN] at h
+        have := Nat.mul_le_mul_right (B ^ n) (show 1 ≤ c.toNat + 1 by omega)
+        have := B_pow_pos n
+        omega
+      | cons d t =>
+        simp only [encN] at h
+        have ⟨h1, h2⟩ := digit_eq (encN_lt n s) (encN_lt n t) h
+        have hc : c = d := Char.toNat_inj.mp (by omega)
+        simp only [List.length_cons] at hs ht
+        rw [hc, ih s t (by omega) (by omega) h2]
+
+theorem char_lt_iff (c d : Char) : c < d ↔ c.toNat < d.toNat := by
+  rw [Char.lt_def, UInt32.lt_iff_toNat_lt]; rfl
+
+/-- the code is strictly monotone: the order of the codes is Rust's `str` order (lexicographic by
+Unicode scalar value = by UTF-8 bytes) -/
+theorem encN_lt_iff (n : Nat) (s t : Str) (hs : s.length ≤ n) (ht : t.length ≤ n) :
+    encN n s < encN n t ↔ s < t := by
+  induction n generalizing s t with
+  | zero =>
+    have : s = [] := List.eq_nil_of_length_eq_zero (by omega)
+    have : t = [] := List.eq_nil_of_length_eq_zero (by omega)
+    subst_vars
+    simp [encN]
+  | succ n ih =>
+    cases s with
+    | nil =>
+      cases t with
+      | nil => simp [encN]
+      | cons d t =>
+        simp only [encN, List.nil_lt_cons, iff_true]
+        have := Nat.mul_le_mul_right (B ^ n) (show 1 ≤ d.toNat + 1 by omega)
+        have := B_pow_pos n
+        omega
+    | cons c s =>
+      cases t with
+      | nil => simp [encN]
+      | cons d t =>
+        simp only [List.length_cons] at hs ht
+        simp only [encN, List.cons_lt_cons_iff]
+        rw [digit_lt_iff (encN_lt n s) (encN_lt n t), ih s t (by omega) (by omega), char_lt_iff,
+          ← Char.toNat_inj]
+        constructor <;> rintro (h | ⟨h1, h2⟩) <;>
+          first | exact Or.inl (by omega) | exact Or.inr ⟨by omega, h2⟩
+
+theorem decN_encN (n : Nat) (s : Str) (hs : s.length ≤ n) : decN n (encN n s) = s := by
+  induction n generalizing s with
+  | zero =>
+    have : s = [] := List.eq_nil_of_length_eq_zero (by omega)
+    subst this; rfl
+  | succ n ih =>
+    cases s with
+    | nil => simp [encN, decN]
+    | cons c s =>
+      simp only [List.length_cons] at hs
+      have hP := B_pow_pos n
+      have hx := encN_lt n s
+      have hd : ((c.toNat + 1) * B ^ n + encN n s) / B ^ n = c.toNat + 1 := by
+        rw [Nat.add_comm, Nat.add_mul_div_right _ _ hP, Nat.div_eq_of_lt hx]; omega
+      have hm : ((c.toNat + 1) * B ^ n + encN n s) % B ^ n = encN n s := by
+        rw [Nat.add_comm, Nat.add_mul_mod_self_right, Nat.mod_eq_of_lt hx]
+      simp only [encN, decN, hd, hm]
+      rw [if_neg (by omega), ih s (by omega)]
+      simp [Char.ofNat_toNat]
+
+theorem code_inj (s t : Str) (hs : s.length ≤ L) (ht : t.length ≤ L) (h : code s = code t) : s = t :=
+  encN_inj L s t hs ht h
+
+theorem code_lt_iff (s t : Str) (hs : s.length ≤ L) (ht : t.length ≤ L) : code s < code t ↔ s < t :=
+  encN_lt_iff L s t hs ht
+
+theorem decode_code (s : Str) (hs : s.length ≤ L) : decode (code s) = s := decN_encN L s hs
+
+/-! ### D. lookups -/
+section lookups
+open BarterModel.Index
+
+theorem okOr_ok_iff {α ε : Type} (o : Option α) (e : ε) (a : α) : okOr o e = .ok a ↔ o = some a := by
+  cases o <;> simp [okOr]
+
+theorem okOr_error_iff {α ε : Type} (o : Option α) (e x : ε) :
+    okOr o e = .error x ↔ o = none ∧ x = e := by
+  cases o <;> simp [okOr, eq_comm]
+
+/-- `find_map` / `position`: the first index whose element satisfies `p` -/
+theorem findIdx?_first {α : Type} (p : α → Bool) (l : List α) (i : Nat) :
+    l.findIdx? p = some i ↔
+      (∃ x, l[i]? = some x ∧ p x = true) ∧ ∀ j, j < i → ∀ y, l[j]? = some y → p y = false := by
+  rw [List.findIdx?_eq_some_iff_getElem]
+  constructor
+  · rintro ⟨h, hp, hlt⟩
+    refine ⟨⟨l[i], by simp [h], hp⟩, ?_⟩
+    intro j hj y hy
+    obtain ⟨hjl, rfl⟩ := List.getElem?_eq_some_iff.mp hy
+    simpa using hlt j hj
+  · rintro ⟨⟨x, hx, hp⟩, hlt⟩
+    obtain ⟨h, rfl⟩ := List.getElem?_eq_some_iff.mp hx
+    refine ⟨h, hp, ?_⟩
+    intro j hj
+    have := hlt j hj l[j] (by simp [show j < l.length by omega])
+    simp [this]
+
+theorem getElem?_enumerate_eq {α : Type} (l : List α) (k : Nat) (x : Keyed Nat α) :
+    (enumerate l)[k]? = some x ↔ x.key = k ∧ l[k]? = some x.value := by
+  rw [getElem?_enumerate]
+  obtain ⟨xk, xv⟩ := x
+  cases l[k]? <;> simp [eq_comm]
+
+end lookups
+
 end BarterModel.Names
